@@ -206,6 +206,23 @@ def check(ck):
                 n5 += 1
                 ck.require(bool(cl.held(fi, n)), "C16.5", "%s: %s of self.%s in `%s`" % (q.fn(fi), "write" if kind == "w" else "read", attr, q.stmt_text(n)[:40]),
                            "under the future's lock", "the registration field `%s` is accessed without the future's lock" % attr, q.loc(fi, n))
+    # ... and it is one and the same lock everywhere (two Lock objects - e.g. a class-private `__lock` in a base class and
+    # another one in the derived class, which name mangling keeps apart - exclude nothing)
+    helds = []
+    for fi in fr.methods.values():
+        if fi.name == "__init__":
+            continue
+        for (n, attr, kind, txt) in cl.accesses(fi):
+            if attr in shared:
+                helds.append((fi, n, frozenset(cl.held(fi, n))))
+    common_lock = frozenset.intersection(*[h for (_f, _n, h) in helds]) if helds else frozenset()
+    if helds and all(h for (_f, _n, h) in helds):
+        odd = next(((f_, n_, h) for (f_, n_, h) in helds if h != helds[0][2]), None)
+        ck.require(bool(common_lock), "C16.5", "threadpool.FutureResult: one lock guards the registration", "a lock common to every access",
+                   "the registration fields are accessed under different locks (%s in %s, %s in %s): the consumer and set_callback do not "
+                   "exclude each other, a callback can be taken with the extra of another registration" % (
+                       sorted(helds[0][2]), helds[0][0].name, sorted(odd[2]) if odd else "", odd[0].name if odd else ""),
+                   q.loc(odd[0], odd[1]) if odd else "")
     if n5 < 4:
         # (clean tree: 6 - the notifier reads and resets both fields, set_callback writes both; resetting `extra` is not
         # required for the property as long as every registration overwrites it, which is checked below)
